@@ -149,7 +149,7 @@ def check_alloc_owner(ck, tree):
             ck.ok("NODE-ALLOC-OWNER", tree.where(fn, kind), "destroy + deallocate(%s node, %s()) then --stats_.%s" % (kind, fac, fld))
     # a fresh leaf has null links (the alias model of LEAFCHAIN-SPLICE relies on it)
     fn = tree.one("initialize", BT + "::LeafNode")
-    sh = B.Shape(fn)
+    sh = B.Shape(fn, tree=tree)
     st = B.ShapeState()
     outs = sh.run(kids(fn.body), st)
     good = all(s.heap.get(("this", "next_leaf")) == "NULL" and s.heap.get(("this", "prev_leaf")) == "NULL" for s in init_states(fn))
@@ -186,6 +186,13 @@ def init_states(fn):
 
 
 # ------------------------------------------------------------------ unlink => free before the slot is reused
+def tree_fn_by_did(tree, did):
+    for f in tree.fns:
+        if f.did == did:
+            return f
+    return None
+
+
 def check_free_on_unlink(ck, tree):
     for name in ("erase_one_descend", "erase_iter_descend"):
         fn = tree.one(name)
@@ -195,7 +202,19 @@ def check_free_on_unlink(ck, tree):
         if len(regions) != 1:
             raise ir.AnalysisBroken("%s: fix-merge region not found" % fn.full)
         reg = kids(regions[0])[1]
+        host, g_host = fn, g
         frees = [z for z in walk(reg) if "callee" in z and z["callee"]["name"] == "free_node"]
+        if not frees:
+            # the repair may have been moved into a private helper called from the region
+            for z in walk(reg):
+                if "callee" in z and z.get("member_call") and strip_casts(kids(z)[0])["k"] == "This" and z["callee"]["name"] != name:
+                    cal = tree_fn_by_did(tree, z["callee"]["did"])
+                    if cal is not None and any("callee" in q and q["callee"]["name"] == "free_node" for q in cal.nodes()):
+                        host, g_host, reg = cal, cfgm.CFG(cal), cal.body
+                        frees = [q for q in walk(reg) if "callee" in q and q["callee"]["name"] == "free_node"]
+                        break
+        g = g_host
+        fn_host = host
         copies = []
         for z in walk(reg):
             if "callee" in z and z["callee"]["name"] in ("copy", "copy_backward", "move") and len(kids(z)) >= 3:
@@ -213,7 +232,7 @@ def check_free_on_unlink(ck, tree):
         is_child = arg is not None and match.field_of(arg[0]) and match.field_of(arg[0])[1] == "childid"
         if not is_child:
             ck.violation("FREE-ON-UNLINK", fn.qname, sig, "free_node(%s) does not release the unlinked child" % dtable.describe(kids(frees[0])[1]),
-                         fn.nloc(frees[0]))
+                         fn_host.nloc(frees[0]))
             continue
         if not copies or not decs:
             ck.violation("FREE-ON-UNLINK", fn.qname, sig, "the freed child stays referenced: childid[] is not closed up / slotuse not decremented",
@@ -223,7 +242,7 @@ def check_free_on_unlink(ck, tree):
         bad = [c for c in copies if not g.dominates(pf, g.pos_deep(c))]
         if bad:
             ck.violation("FREE-ON-UNLINK", fn.qname, sig, "childid[slot] is overwritten before the node it points to was freed (leak, and the "
-                         "wrong node is freed afterwards)", fn.nloc(bad[0]))
+                         "wrong node is freed afterwards)", fn_host.nloc(bad[0]))
             continue
         # the emptied node chosen: the test on slotuse precedes
         ck.ok("FREE-ON-UNLINK", tree.where(fn), "free_node(childid[slot]) dominates the copy that closes the gap; slotuse decremented")
@@ -241,7 +260,7 @@ def check_free_on_unlink(ck, tree):
                 if not (v.get(("null", B.P_LEFT)) and v.get(("null", B.P_RIGHT))):
                     continue
                 found = True
-                sh = B.Shape(fn)
+                sh = B.Shape(fn, tree=tree)
                 st = B.ShapeState()
                 for i, p in enumerate(fn.params):
                     if i in (B.P_CURR,):
@@ -515,8 +534,8 @@ def check_size(ck, tree):
 
 
 # ------------------------------------------------------------------ leaf chain
-def run_shape(fn, stmts, setup):
-    sh = B.Shape(fn)
+def run_shape(fn, stmts, setup, tree=None):
+    sh = B.Shape(fn, tree=tree)
     st = B.ShapeState()
     setup(st)
     # loops inside the fragment must not touch the chain
@@ -537,7 +556,7 @@ def check_leafchain(ck, tree):
         st.env[L] = "L"
         st.null["L"] = False
         st.heap[("L", "next_leaf")] = "X"
-    outs = run_shape(fn, kids(fn.body), setup)
+    outs = run_shape(fn, kids(fn.body), setup, tree)
     bad = None
     for s in outs:
         if len(s.news) != 1:
@@ -575,7 +594,7 @@ def check_leafchain(ck, tree):
         st.heap[("L", "next_leaf")] = "R"
         st.heap[("R", "prev_leaf")] = "L"
         st.heap[("R", "next_leaf")] = "X"
-    outs = run_shape(fn, kids(fn.body), setup2)
+    outs = run_shape(fn, kids(fn.body), setup2, tree)
     bad = None
     for s in outs:
         xnull = s.null.get("X")
@@ -612,7 +631,7 @@ def check_append(ck, tree, fn, stmts, what):
         st.tf["head_leaf_"] = "H"
         st.tf["tail_leaf_"] = "T"
     # strip inner loops that fill the slots
-    outs = run_shape(fn, stmts, setup)
+    outs = run_shape(fn, stmts, setup, tree)
     bad = None
     for s in outs:
         # consistent start states only: head null <=> tail null
